@@ -122,8 +122,8 @@ def main(argv):
             e = ("sus", mode, susrender.sx(av), "(%s)" % " ".join(map(str, gs)))
             ovs = rng.choice(shapes)
             ogs = sorted(set(g for x in ovs for g in susrender.gates(x)))
-            # in between: a streaming render drained to the end, a blocking render, a streaming render abandoned with pending tasks
-            for omode, osched in (("streaming", ogs), ("blocking", ogs), ("streaming", [])):
+            # in between: a streaming render drained to the end, a blocking render, a streaming and a blocking render abandoned with pending tasks
+            for omode, osched in (("streaming", ogs), ("blocking", ogs), ("streaming", []), ("blocking", [])):
                 other = ("sus", omode, susrender.sx(susrender.real_view(ovs)), "(%s)" % " ".join(map(str, osched)))
                 mixed.append([e, other, e])
         # ... and between two sync renders of an ordinary view with elements
